@@ -2,7 +2,7 @@
    expected observation) go out; 105 evaluates the property oracle on an observation. *)
 From Coq Require Import List ZArith QArith Bool.
 From PV Require Import lib.Sx lib.Str lib.Result lib.Dec.
-From PV Require Import model.TimeRead spec.SpecTime extract.OrCommon.
+From PV Require Import model.Generated model.TimeRead model.TimeTree spec.SpecTime spec.SpecTimeTree extract.OrCommon.
 Import ListNotations.
 Open Scope Z_scope.
 
@@ -235,6 +235,72 @@ Definition req_raw_sami (arg : sx) : sx :=
   | None => bad
   end.
 
+(* ---- abstract trees (114 DFXP, 115 SAMI) ---------------------------------------------------------- *)
+Definition sx_attr (x : sx) : option (str * str) :=
+  match x with SL [SS n; SS v] => Some (n, v) | _ => None end.
+Definition sx_ap (x : sx) : option ap :=
+  match x with
+  | SL [SI 0; ex; t] => match sx_listof sx_attr ex, sx_dfxp_p t with
+                        | Some ex, Some t => Some (APText ex t)
+                        | _, _ => None
+                        end
+  | SL [SI 1; a] => match sx_listof sx_attr a with Some a => Some (APBlank a) | None => None end
+  | _ => None
+  end.
+Definition sx_adiv (x : sx) : option (option str * list ap) :=
+  match x with
+  | SL [l; ps] => match sx_opt sx_str l, sx_listof sx_ap ps with
+                  | Some l, Some ps => Some (l, ps)
+                  | _, _ => None
+                  end
+  | _ => None
+  end.
+Definition of_dict (d : list (str * list (Z * Z))) : sx :=
+  of_list (fun kv : str * list (Z * Z) => SL [SS (fst kv); of_pairs (snd kv)]) d.
+Definition of_xp (p : xp) : sx :=
+  SL [of_list (fun nv : str * str => SL [SS (fst nv); SS (snd nv)]) (xp_attrs p); of_bool (xp_text p)].
+
+Definition req_dfxp_tree (arg : sx) : sx :=
+  match arg with
+  | SL [tl; dvs] =>
+      match sx_opt sx_str tl, sx_listof sx_adiv dvs with
+      | Some tlang, Some dvs =>
+          let rendered := map (fun dv : option str * list ap => (fst dv, map ap_render (snd dv))) dvs in
+          SL [of_list (fun dv : option str * list xp => SL [of_ostr (fst dv); of_list of_xp (snd dv)]) rendered;
+              of_result of_dict (dfxp_read_tree default_language_code tlang rendered);
+              of_result of_dict (set_result (tree_expected default_language_code tlang dvs));
+              of_bool (tree_dom default_language_code tlang dvs)]
+      | _, _ => bad
+      end
+  | _ => bad
+  end.
+
+Definition sx_async (x : sx) : option async :=
+  match x with
+  | SL [k; SI ms; ps] =>
+      match sx_nat k, sx_listof (fun y => match y with
+                                          | SL [SS l; b] => match sx_bool b with Some b => Some (l, b) | None => None end
+                                          | _ => None
+                                          end) ps with
+      | Some k, Some ps => Some (k, ms, ps)
+      | _, _ => None
+      end
+  | _ => None
+  end.
+
+Definition req_sami_tree (arg : sx) : sx :=
+  match arg with
+  | SL [ls; body] =>
+      match sx_strs ls, sx_listof sx_async body with
+      | Some ls, Some body =>
+          SL [of_result of_dict (sami_read_tree ls (map async_render body));
+              of_result of_dict (set_result (sami_tree_expected ls body));
+              of_bool (sami_tree_dom ls body)]
+      | _, _ => bad
+      end
+  | _ => bad
+  end.
+
 Definition dispatch (code : Z) (arg : sx) : option sx :=
   match code with
   | 100 => Some (req_srt arg)
@@ -251,5 +317,7 @@ Definition dispatch (code : Z) (arg : sx) : option sx :=
   | 111 => Some (req_raw_dfxp arg)
   | 112 => Some (req_raw_sami arg)
   | 113 => Some (req_raw_vtt arg)
+  | 114 => Some (req_dfxp_tree arg)
+  | 115 => Some (req_sami_tree arg)
   | _ => None
   end.
